@@ -6,12 +6,14 @@ FACTS = [("QuartzModel.Theorems.Facts", t) for t in [
 
 ODO = [("QuartzModel.Proofs.Odometer", t) for t in ["Odo.findForward_spec", "Odo.loop_fuel", "Odo.μ6_measure"]]
 
+SCHEDFACTS = [("QuartzModel.Theorems.SchedFacts", "Sched." + t) for t in ["validate_branches", "misfire_offer_nonblocking", "step_order", "classify_spec"]]
+
 THEOREMS = {
     "C14": [("QuartzModel.Theorems.C14", "Cron." + t) for t in [
         "C14_sound", "C14_no_miss", "C14_expiry", "C14_terminates", "C14_exact_away_from_transitions", "C14_exact_is_least",
         "C14_chain_increasing", "C14_fixed_zone_is_special_case", "C14_total", "C14_reading_advances", "C14_result_reading"]] +
            [("QuartzModel.Proofs.ZoneLemmas", "Cron.zoneLoop_spec"), ("QuartzModel.Proofs.ZoneLemmas", "Cron.zoneLoop_fuel")] + FACTS[:2],
-    "C03": [], "C04": [], "C08": [],
+    "C03": SCHEDFACTS, "C04": SCHEDFACTS, "C08": SCHEDFACTS,
     "C09": [("QuartzModel.Theorems.C09Lin", "Sched." + t) for t in ["C09_lock_facts", "C09_unlocked_are_reads", "pauseOp_run", "C09_linearizable"]] +
            [("QuartzModel.Concurrency.Lock", "Lock.linearizable")],
     "C11": [("QuartzModel.Theorems.C11", "Queue." + t) for t in [
